@@ -460,6 +460,8 @@ class Builder:
             pair_future = RegFuture(self._connection, loop_register)
             assert params.post_routine is not None
             params.post_routine(self, q, pair_future)
+            # The handle only exists for the duration of the post routine.
+            q.active = False
 
         # TODO use loop context
         self._build_cmds_loop_body(
@@ -537,7 +539,9 @@ class Builder:
         self,
         role: EPRRole,
         params: EntRequestParams,
-    ) -> Tuple[List[T_Cmd], operand.Register, Array, FutureQubit, operand.Register]:
+    ) -> Tuple[
+        List[T_Cmd], operand.Register, Array, FutureQubit, operand.Register, List[Qubit]
+    ]:
         self._assert_epr_args(
             number=params.number,
             post_routine=lambda: None,  # type: ignore
@@ -579,7 +583,7 @@ class Builder:
         q_id = qubit_ids_array.get_future_index(pair)
         q = FutureQubit(conn=self._connection, future_id=q_id)
 
-        return pre_commands, loop_register, ent_results_array, q, pair
+        return pre_commands, loop_register, ent_results_array, q, pair, qubit_futures + [q]
 
     def _post_epr_context(
         self,
@@ -588,7 +592,11 @@ class Builder:
         loop_register: operand.Register,
         ent_results_array: Array,
         pair: operand.Register,
+        qubits: List[Qubit],
     ) -> None:
+        # The qubits of the pairs can only be used inside the context.
+        for q in qubits:
+            q.active = False
         body_commands = self.subrt_pop_all_pending_commands()
         self._add_wait_for_ent_info_cmd(
             ent_results_array=ent_results_array,
@@ -2280,6 +2288,7 @@ class Builder:
                 ent_results_array,
                 output,
                 pair,
+                qubits,
             ) = self._pre_epr_context(role=EPRRole.CREATE, params=params)
             pair_future = RegFuture(self._connection, pair)
             yield output, pair_future
@@ -2290,4 +2299,5 @@ class Builder:
                 loop_register=loop_register,
                 ent_results_array=ent_results_array,
                 pair=pair,
+                qubits=qubits,
             )
